@@ -492,7 +492,10 @@ pub fn run() -> i32 {
         }
         for outer in 0..2u8 {
             for inner in 0..2u8 {
-                for var in 0..3u8 {
+                for var in 0..5u8 {
+                    if var == 3 && inner == 0 {
+                        continue;
+                    }
                     crate::sym::load(vec![vec![outer], vec![inner], vec![var]]);
                     n += 1;
                     if std::panic::catch_unwind(|| crate::node::c04_nested_prefix()).is_err() {
